@@ -3,7 +3,7 @@
 // patterns with GRAPH <iri> / GRAPH ?g blocks (WHERE evaluated once on the pre-operation dataset by brute-force
 // join, template quads with an unbound variable skipped, all deletions before all insertions, counts = quads
 // that actually changed, graph identities created by inserts and never removed by deletes) is run side by side
-// with execute_sparql_update over every sequence of <= 3 (thorough: 4) operations out of 20, from 2 initial
+// with execute_sparql_update over every sequence of <= 3 (thorough: 4) operations out of 25, from 2 initial
 // datasets; after every step the whole dataset (all graphs), the graph catalog and the reported counts are compared.
 use kolibrie::execute_query::execute_sparql_update;
 use kolibrie::sparql_database::SparqlDatabase;
@@ -11,7 +11,7 @@ use shared::dataset_index::GraphId;
 use std::collections::{BTreeMap, BTreeSet};
 
 #[derive(Clone, Debug, PartialEq, Eq, PartialOrd, Ord)]
-enum T { I(&'static str), V(&'static str) }
+enum T { I(&'static str), V(&'static str), L(&'static str) }   // IRI, variable, plain literal
 #[derive(Clone, Debug)]
 enum G { Default, Iri(&'static str), Var(&'static str) }
 #[derive(Clone, Debug)]
@@ -27,7 +27,7 @@ struct Model { quads: BTreeSet<Quad>, graphs: BTreeSet<String> }
 
 fn iri(x: &str) -> String { format!("http://e/{}", x) }
 fn pat(g: G, s: T, p: T, o: T) -> Pat { Pat { g, s, p, o } }
-use T::{I, V};
+use T::{I, V, L};
 
 fn ops() -> Vec<Op> {
     let p = || I("p"); let q = || I("q");
@@ -55,11 +55,20 @@ fn ops() -> Vec<Op> {
         /*16*/ u(vec![], vec![pat(G::Var("g"), V("s"), q(), V("o"))], vec![pat(G::Var("g"), V("s"), p(), V("o"))], vec![pat(G::Default, V("s"), p(), V("o"))]),
         /*17*/ u(vec![pat(G::Var("g"), V("s"), p(), V("o"))], vec![], vec![pat(G::Var("g"), V("s"), p(), V("o"))], vec![pat(G::Default, V("s"), p(), V("o"))]),
         /*18*/ u(vec![pat(G::Var("g"), V("s"), p(), V("o"))], vec![pat(G::Var("g"), V("s"), q(), V("o")), pat(G::Default, V("s"), q(), V("o"))], vec![pat(G::Var("g"), V("s"), p(), V("o"))], vec![pat(G::Default, V("s"), p(), V("o"))]),
+        // literals: a variable bound to a literal makes a template quad illegal where a literal cannot stand (subject / predicate)
+        /*20*/ m(Form::InsertData, vec![], vec![pat(G::Default, I("a"), p(), L("lit")), pat(G::Iri("g1"), I("c"), p(), L("lit2")), pat(G::Default, I("a"), p(), L("lit"))], vec![]),
+        /*21*/ m(Form::Modify, vec![], vec![pat(G::Default, V("o"), q(), V("s"))], vec![pat(G::Default, V("s"), p(), V("o"))]),
+        /*22*/ m(Form::Modify, vec![], vec![pat(G::Default, V("s"), V("o"), V("s")), pat(G::Default, V("s"), q(), V("o"))], vec![pat(G::Default, V("s"), p(), V("o"))]),
+        /*23*/ m(Form::DeleteData, vec![pat(G::Default, I("a"), p(), I("b")), pat(G::Default, I("a"), p(), I("b")), pat(G::Default, I("a"), p(), L("lit"))], vec![], vec![]),
+        /*24*/ m(Form::Modify, vec![pat(G::Default, V("s"), p(), V("o"))], vec![pat(G::Var("o"), V("s"), p(), V("o"))], vec![pat(G::Default, V("s"), p(), V("o"))]),
         /*19*/ u(vec![], vec![pat(G::Iri("g3"), V("s"), p(), V("o")), pat(G::Iri("g3"), V("s"), q(), V("z"))], vec![pat(G::Default, V("s"), p(), V("o"))], vec![pat(G::Iri("g1"), V("s"), p(), V("z"))]),
     ]
 }
 
-fn term_text(t: &T) -> String { match t { I(x) => format!("<{}>", iri(x)), V(v) => format!("?{}", v) } }
+fn term_text(t: &T) -> String { match t { I(x) => format!("<{}>", iri(x)), V(v) => format!("?{}", v), L(x) => format!("\"{}\"", x) } }
+/// how the store shows a term: IRIs and literal CONTENT (the code base keeps plain literals without quotes)
+fn stored(t: &T) -> Option<String> { match t { I(x) => Some(iri(x)), L(x) => Some(x.to_string()), V(_) => None } }
+fn is_iri_text(s: &str) -> bool { s.starts_with("http://") }
 fn block(ps: &[Pat]) -> String {
     let mut s = String::new();
     for p in ps {
@@ -84,7 +93,7 @@ fn text(op: &Op) -> String {
 
 type Binding = BTreeMap<&'static str, String>;
 fn unify(t: &T, value: &str, b: &mut Binding) -> bool {
-    match t { I(x) => iri(x) == value, V(v) => match b.get(v) { Some(x) => x == value, None => { b.insert(v, value.to_string()); true } } }
+    match t { I(x) => iri(x) == value, L(x) => *x == value, V(v) => match b.get(v) { Some(x) => x == value, None => { b.insert(v, value.to_string()); true } } }
 }
 fn solutions(m: &Model, pattern: &[Pat]) -> Vec<Binding> {
     let mut sols: Vec<Binding> = vec![Binding::new()];
@@ -106,10 +115,14 @@ fn solutions(m: &Model, pattern: &[Pat]) -> Vec<Binding> {
 }
 fn instantiate(tpl: &[Pat], sols: &[Binding]) -> BTreeSet<Quad> {
     let mut out = BTreeSet::new();
-    let val = |t: &T, b: &Binding| -> Option<String> { match t { I(x) => Some(iri(x)), V(v) => b.get(v).cloned() } };
+    let val = |t: &T, b: &Binding| -> Option<String> { match t { V(v) => b.get(v).cloned(), other => stored(other) } };
     for b in sols { for p in tpl {
         let g = match &p.g { G::Default => Some(None), G::Iri(g) => Some(Some(iri(g))), G::Var(v) => b.get(v).cloned().map(Some) };
-        if let (Some(g), Some(s), Some(pp), Some(o)) = (g, val(&p.s, b), val(&p.p, b), val(&p.o, b)) { out.insert((s, pp, o, g)); }
+        if let (Some(g), Some(s), Some(pp), Some(o)) = (g, val(&p.s, b), val(&p.p, b), val(&p.o, b)) {
+            // RDF legality per instantiated quad: a literal cannot be a subject, predicate or graph name - that quad is skipped
+            let legal = is_iri_text(&s) && is_iri_text(&pp) && g.as_ref().map_or(true, |x| is_iri_text(x));
+            if legal { out.insert((s, pp, o, g)); }
+        }
     }}
     out
 }
@@ -147,10 +160,30 @@ fn initial(kind: usize) -> SparqlDatabase {
     db
 }
 
+/// requests that must be REJECTED and leave the dataset unchanged (operation indexes >= 100)
+const REJECTED: [&str; 5] = [
+    "INSERT DATA { ?s <http://e/p> <http://e/b> }",
+    "DELETE DATA { _:b <http://e/p> <http://e/b> }",
+    "DELETE DATA { <http://e/a> <http://e/p> ?o }",
+    "DELETE { _:b <http://e/p> ?o } WHERE { ?s <http://e/p> ?o }",
+    "INSERT { <http://e/a> <http://e/p> <http://e/b> } WHERE { ?s <http://e/p> ",
+];
 fn run(kind: usize, seq: &[usize], all: &[Op]) {
     let mut db = initial(kind);
     let mut model = observe(&db);
     for (k, &oi) in seq.iter().enumerate() {
+        if oi >= 100 {
+            let t = REJECTED[oi - 100];
+            let ctx = format!("initial dataset #{}, operations {:?}, step {} = {}", kind, seq, k + 1, t);
+            match std::panic::catch_unwind(std::panic::AssertUnwindSafe(|| execute_sparql_update(t, &mut db))) {
+                Err(_) => panic!("{}: execute_sparql_update panicked", ctx),
+                Ok(Ok(_)) => panic!("{}: the request must be rejected but was accepted", ctx),
+                Ok(Err(_)) => {}
+            }
+            let got = observe(&db);
+            assert!(got == model, "{}: a REJECTED update changed the dataset: {:?} -> {:?}", ctx, model, got);
+            continue;
+        }
         let op = &all[oi];
         let t = text(op);
         let want = apply(&mut model, op);
@@ -169,6 +202,8 @@ fn run(kind: usize, seq: &[usize], all: &[Op]) {
 #[test] fn w__update_graph_sequences__agree_with_sparql_update_semantics() {
     let all = ops();
     let thorough = std::env::var("VERIF_TIER").map_or(false, |v| v == "thorough");
+    // rejected requests between accepted ones
+    for kind in 0..2 { for a in 0..all.len() { for r in 0..REJECTED.len() { for b in (0..all.len()).step_by(3) { run(kind, &[a, 100 + r, b], &all); run(kind, &[100 + r, a], &all); } } } }
     for kind in 0..2 {
         for a in 0..all.len() {
             run(kind, &[a], &all);
